@@ -263,6 +263,25 @@ for c in req.get("compute_domain", []):
     res.append(o)
 out["compute_domain"] = res
 
+if "extract" in req:
+    # _extract_lons_lats: which source is used (value 0 = the pair itself, 1 = the bounding_box attribute, 2 = get_lonlats())
+    from pyresample.future.geometry import SwathDefinition as FutureSwath2
+    res = []
+    for kind, has_bbox in req["extract"]:
+        two = np.full((2, 2), 2.0)
+        if kind == 0:
+            arg = (np.zeros(3), np.zeros(3))
+        elif kind == 1:
+            arg = FutureSwath2(two, two, attrs=dict(bounding_box=[[1.0, 1.0], [1.0, 1.0]]) if has_bbox else dict(other=1))
+        else:
+            arg = SwathDefinition(two, two)      # legacy class: no attrs at all
+        try:
+            lo, la = DynamicAreaDefinition._extract_lons_lats(arg)
+            res.append(int(np.ravel(np.asarray(lo))[0]))
+        except Exception as e:
+            res.append({"error": type(e).__name__})
+    out["extract"] = res
+
 if "wrap" in req:
     v = np.array([unhex(x) for x in req["wrap"]], dtype=np.float64)
     out["wrap"] = [hx(x) for x in (v % 360)]
